@@ -167,6 +167,11 @@ func (g *Grt) UnmarshalXML(d *xml.Decoder, start xml.StartElement) error {
 
 // Validates Grt
 func (g *Grt) isValid() bool {
+	// a Grant without Grantee
+	if g == nil {
+		return false
+	}
+
 	// Validate the Type
 	// Only these 2 types are supported in the gateway
 	if g.Type != types.TypeCanonicalUser && g.Type != types.TypeGroup {
